@@ -163,3 +163,14 @@ CHECKS['C04'] = dict(level='proof',
         'the Euler extraction outside its regime (cos t2 > 0 resp. sin t2 > 0).',
    technique='abstract interpretation of instantiated LLVM IR into polynomial normal forms; ideal-membership by reduction modulo the unit-norm and Pythagorean relations; decision-tree exploration of branchy code; configuration differential (both quaternion layouts)')
 NOT_APPLICABLE.pop('C04', None)
+
+CHECKS['C11'] = dict(level='other',
+   text='Every constant of ext/scalar_constants and gtc/constants (30 functions x float/double) returns exactly the bit pattern of the correctly rounded value of the quantity it names (reference computed to 80 '
+        'digits); abs, sign, floor, ceil, trunc, round, fract, mod, min, max, clamp, step, smoothstep, mix (float and bool), fma, isnan, isinf, modf, frexp, ldexp are term-equal / ring-equal / equal over all '
+        'operand orderings to their GLSL definitions; the four bit-cast functions are the identity on the bit pattern; fmin / fmax with 2, 3, 4 operands and fclamp return the min / max of the non-NaN operands '
+        'for every ordering x NaN pattern; floor/ceil/trunc/round/roundEven map NaN to NaN and +-inf to +-inf (float-class abstract evaluation); iround / uround are conversions of round(x), not the '
+        'int(x + 0.5) idiom; clamp/repeat/mirrorClamp/mirrorRepeat(texcoord) lie in [0, 1] by interval evaluation.',
+   note='The statement quantifies over all 2^32 float patterns; only the clauses visible in the instantiated code are decided (definitions by shape, constants by literal, NaN/inf by abstract classes, ranges by '
+        'intervals).  Not decided: that libm round/floor/... themselves return the nearest integer, roundEven\'s tie arithmetic, numeric accuracy of smoothstep/mix, gtx/compatibility and gtx/common helpers.',
+   technique='abstract interpretation of instantiated LLVM IR into terms; comparison with definitions over the order x NaN domain and the float-class domain; literal check of constants against independently computed correctly rounded values; interval evaluation')
+NOT_APPLICABLE.pop('C11', None)
